@@ -62,13 +62,86 @@ def check_C07(tier, seed):
              "content after every maintenance step = content before = acknowledged rows; partition ranges tile [0,n)")
 
 
+def check_C09(tier, seed):
+    return standard_check(
+        "C09", tier, seed, "store", ["c09_crash"],
+        trusted=STORE_TRUSTED + [
+            "crash = process death: the harness copies the directory inside the fs_effect callback after every primitive "
+            "effect of FileBlobWriter::{store,delete} (effects of other threads wait meanwhile) and truncates freshly "
+            "written temp files; reordering of effects by the host file system (power loss) is neither modelled nor tested",
+            "the effect model keeps what recovery can tell apart: temp files of partition / catalogue files are never "
+            "read, so only their rename is an effect; sync changes nothing a reader sees"],
+        assumptions=["workloads are sequential (no ingestion concurrent with the flush)",
+                     "recovery stopping at a catalogue-loading site is allowed by the C09 theorems and excluded by C13"],
+        rule="seeded workloads of 3..6 operations over {ingest into 1..3 tables, force_flush with factor 0/1/4/999, restart}; "
+             "every directory copy taken after a primitive effect (deduplicated by names+sizes, capped at 40 per workload in "
+             "the quick tier: all cuts of ingestions, an even sample of the others) and 0%/50% truncations of a written log "
+             "temp file are opened in a child process under a deadline; allowed: acknowledged content, or that plus the "
+             "in-flight request whole (catalogue included); every 4th copy is opened twice, copies taken at the recovery's "
+             "own effects are opened once more, one recovered copy per workload is flushed; the abstracted effect trace of "
+             "every operation must equal the model's (store_effects) and partition files / catalogue / removals must be "
+             "ordered; non-trivial: the workload produced at least one cut")
+
+
+def check_C13(tier, seed):
+    return standard_check(
+        "C13", tier, seed, "store", ["c13_history"],
+        trusted=STORE_TRUSTED,
+        assumptions=["table names are file-system safe (C15); column names: ASCII, names differing only in case, non-ASCII, "
+                     "70 bytes long, sorting before / after all others, _meta_-like",
+                     "the hash-map order of the tables inside one event buffer is fixed to: client tables, _meta_tables, "
+                     "_meta_columns_* (the model's and the theorems' order)"],
+        rule=HIST_RULE + "classes: vary-within (every batch its own column subset, factor 999), vary-within-bgflush, "
+             "vary-across (column sets change at partition boundaries, factors 1/4), vary-across-recompact (factor 0; F1 once "
+             "a merged partition has a partially-NULL column), long-compressible-names (F28), the F3 witness; oracle "
+             "without model: SELECT column_name FROM _meta_columns_<t> = the set of names ever sent to t, each once; "
+             "SELECT name FROM _meta_tables = tables and their catalogue tables, each once; SELECT * has the sorted "
+             "catalogue as columns and the acknowledged cells (NULL where a batch did not carry the column)")
+
+
 CHECKS = {
     "C07": check_C07,
+    "C13": check_C13,
+    "C09": check_C09,
     "C08": check_C08,
     "C18": check_C18,
 }
 
 CLAIMED = {
+    "C13": dict(
+        text="Machine-checked proof (Coq 8.16) over the persistence model, for every history of well-formed requests "
+             "interleaved with flushes (any factor / sizes), evictions and restarts: (1) the catalogue of every client table "
+             "(SELECT column_name FROM _meta_columns_<t>) is a string column listing exactly the names some request "
+             "mentioned for the table, each exactly once (C13_catalogue_exact); (2) whenever the lazily loaded in-memory "
+             "name set is present it equals that catalogue and covers every column the table's rows carry "
+             "(C13_loaded_names_are_catalogue) - the invariant is re-established segment by segment during WAL replay; "
+             "(3) a column a batch did not mention reads NULL for that batch's rows in every reachable state "
+             "(C13_missing_is_null); (4) catalogue rows travel in the request's own log segment. On the faithful model "
+             "'compaction carries every column' is refuted by the F3 witness (seed \"column_names\"), replayed on the "
+             "implementation on every run. Tied to the code by the history differential with column-set generators and the "
+             "catalogue / SELECT * observers.",
+        note="Not closed (kept as Definition ..._statement in Props/C13.v): exactness of _meta_tables, and - for the repaired "
+             "literal - that the guarded run never stops at the F3 site and that a restart cannot fail while loading the "
+             "catalogue. Guarded run (stops at F1 / F3 sites). The order of tables within one event buffer is fixed in the "
+             "model (client tables, _meta_tables, catalogue tables).",
+        technique="Coq invariant proof over operation histories (log-level catalogue invariant + replay induction) + "
+                  "refutation witness + history correspondence",
+        design_ref="5/C13"),
+    "C09": dict(
+        text="Machine-checked proof (Coq 8.16) over a model of the persistence protocol at the granularity of the primitive "
+             "file effects recovery can tell apart (log temp file created / written / renamed, partition file renamed into "
+             "place, catalogue file replaced, partition file removed, segment removed): from every prefix of the effects of "
+             "an ingestion, started at any reachable state, recovery returns the acknowledged content or that plus the "
+             "in-flight request whole across all its tables - except exactly the cut where the log temp file is incomplete, "
+             "where it hangs (F8, refutation witness proved); from every prefix of the effects of a flush (any factor, any "
+             "size oracle) recovery returns the acknowledged content; partition files precede the catalogue which precedes "
+             "removals; recovery of a state at rest has no effects and recovering twice gives the same. Tied to the code by "
+             "the fs_effect hook: effect-trace conformance per operation and reopening a copy of the directory taken at "
+             "every effect in a child process under a deadline.",
+        note="Partial w.r.t. the host file system (process death only, no reordering). Findings: F8 (incomplete log temp "
+             "file: open hangs), F8b (complete log temp file is replayed but the next flush panics removing <id>.wal).",
+        technique="Coq proof over effect prefixes (frame invariants) + effect-trace correspondence + crash-copy reopen",
+        design_ref="5/C09"),
     "C18": dict(
         text="Machine-checked proof (Coq 8.16) over the persistence model that after every completed flush of any reachable "
              "state - any compaction factor, any size oracle - no log segment remains, the accounted log size is 0, the "
